@@ -2,6 +2,7 @@ package c27shared
 
 import (
 	"fmt"
+	"os"
 	"strings"
 	"time"
 
@@ -17,6 +18,9 @@ type Config struct {
 	W        Weights
 	B        Budget
 	MaxSteps int
+	// LockYield > 0: up to that many pauses of a goroutine INSIDE a critical section of the pool mutex
+	// (at the pool's own debug lines), see Run.lockYield
+	LockYield int
 }
 
 func (c Config) String() string {
@@ -72,6 +76,84 @@ func (r *Run) Step(ch choice, pre obs) (string, bool) {
 		return "cl", true
 	}
 	g := ch.g
+	if r.noModel {
+		// lock-yield run: no model action, no step bookkeeping; the monitors that remain (total vs live
+		// connections, limit, a connection invoked after it reported ErrConnDead, concurrent Invoke on
+		// one connection, panics) do not need it
+		if r.holder != nil && (ch.act == "di" || (ch.act == "fi" && ch.what == "retry")) {
+			if r.deadPending == nil {
+				r.deadPending = map[int64]bool{}
+			}
+			if ch.act == "di" {
+				r.deadPending[int64(g.idx)] = true
+			} else {
+				r.deadPending[g.conn] = true
+			}
+		}
+		if ch.act == "ul" {
+			r.deadPending = nil
+			r.mu.Lock()
+			r.holder = nil
+			for _, b := range r.gs {
+				if b.state == stBlocked {
+					b.state = stRunning
+					r.running++
+				}
+			}
+			r.mu.Unlock()
+		}
+		r.grant(g, ch.what)
+		if !r.waitQuiet(Patience()) {
+			r.hung = true
+			slowFailures.Add(1)
+			r.fail("hang", fmt.Sprintf("after granting %s (lock-yield run) the goroutines did not reach a scheduling point or the pool mutex within the watchdog time", ch))
+			return ch.String() + ":hang", false
+		}
+		if ch.act == "bg" {
+			r.mu.Lock()
+			delete(r.bgs, int64(g.idx))
+			r.mu.Unlock()
+		}
+		if ch.act == "cw" && r.expectBg {
+			// a creator that gave up hands its connection to a background releaser, a goroutine the scheduler
+			// only learns about when it reaches its first scheduling point: wait for it
+			r.mu.Lock()
+			st, res := g.state, g.result
+			r.mu.Unlock()
+			if st == stDone && !strings.Contains(res, "DC closed") {
+				bgConn := g.conn
+				deadline := time.Now().Add(Patience())
+				arrived := false
+				for !arrived && time.Now().Before(deadline) {
+					r.mu.Lock()
+					bg := r.bgs[bgConn]
+					arrived = bg != nil && bg.state != stRunning
+					r.mu.Unlock()
+					if !arrived {
+						time.Sleep(10 * time.Microsecond)
+					}
+				}
+				if !arrived {
+					slowFailures.Add(1)
+				}
+				if !r.waitQuiet(Patience()) {
+					r.hung = true
+					r.fail("hang", fmt.Sprintf("after %s (lock-yield run) the background releaser did not reach a scheduling point", ch))
+					return ch.String() + ":hang", false
+				}
+			}
+		}
+		if os.Getenv("VERIF_DEBUG") != "" {
+			r.mu.Lock()
+			var sb strings.Builder
+			for _, x := range r.gs {
+				fmt.Fprintf(&sb, " %d/%d:%d@%s", x.kind, x.idx, x.state, x.point)
+			}
+			fmt.Fprintf(os.Stderr, "c27 debug: after %s running=%d holder=%v%s\n", ch, r.running, r.holder != nil, sb.String())
+			r.mu.Unlock()
+		}
+		return "", true
+	}
 	prePoint, preKey, preConn, preWhy := g.point, g.key, g.conn, g.why
 	polled, hadPolled := r.inbox[preKey]
 	deadBefore := map[int64]bool{}
@@ -243,6 +325,7 @@ type Outcome struct {
 	Sums      []string // implementation state after every action
 	Fails     [][2]string
 	HasXfer   bool
+	NoModel   bool
 	Hung      bool
 	Terminal  bool
 	Handouts  int
@@ -259,6 +342,9 @@ func (o Outcome) Line() string {
 func (o Outcome) Want() string { return "ok " + strings.Join(o.Sums, "|") + " holds=1" }
 
 func (o Outcome) Input() string {
+	if o.Cfg.LockYield > 0 {
+		return fmt.Sprintf("max=%d callers=%d lock=%d schedule=%s", o.Cfg.Max, o.Cfg.Callers, o.Cfg.LockYield, strings.Join(o.Schedule, ","))
+	}
 	return fmt.Sprintf("max=%d callers=%d schedule=%s", o.Cfg.Max, o.Cfg.Callers, strings.Join(o.Schedule, ","))
 }
 
@@ -269,6 +355,7 @@ type Chooser func(step int, en []choice, summary string) *choice
 func Execute(cfg Config, expectBg bool, choose Chooser) Outcome {
 	r := NewRun(cfg.Max, cfg.Callers, expectBg)
 	defer r.Close()
+	r.lockYield, r.noModel = cfg.LockYield, cfg.LockYield > 0
 	out := Outcome{Cfg: cfg, Kinds: map[string]int{}}
 	b := cfg.B
 	if !r.waitQuiet(Patience()) {
@@ -276,8 +363,16 @@ func Execute(cfg Config, expectBg bool, choose Chooser) Outcome {
 		out.Fails = append(out.Fails, [2]string{"hang", "callers did not reach their first scheduling point"})
 		return out
 	}
-	pre := r.observe()
+	pre := r.observeC(!r.noModel)
 	for step := 0; step < cfg.MaxSteps; step++ {
+		if r.noModel {
+			r.mu.Lock()
+			failed := len(r.fails) > 0
+			r.mu.Unlock()
+			if failed {
+				break // (going on could drive the pool's counter below zero: it panics on a pool goroutine)
+			}
+		}
 		en := r.enabled(cfg.W, &b)
 		if len(en) == 0 {
 			out.Terminal = true
@@ -305,7 +400,7 @@ func Execute(cfg Config, expectBg bool, choose Chooser) Outcome {
 			out.Hung = true
 			break
 		}
-		post := r.observe()
+		post := r.observeC(!r.noModel)
 		if tok != "" {
 			out.Trace = append(out.Trace, tok)
 			out.Sums = append(out.Sums, post.summary)
@@ -319,7 +414,16 @@ func Execute(cfg Config, expectBg bool, choose Chooser) Outcome {
 	r.mu.Lock()
 	out.Fails = append(out.Fails, r.fails...)
 	r.mu.Unlock()
+	for _, f := range out.Fails {
+		if f[0] == "total-mismatch" && r.holder == nil {
+			// the counter is known to be wrong: keep the teardown (every connection dies) from driving it below
+			// zero, where dead() panics on a pool goroutine
+			pool.VerifC27SetTotal(r.dc, 1<<20)
+			break
+		}
+	}
 	out.HasXfer = r.hasXfer
+	out.NoModel = r.noModel
 	out.Handouts = r.handouts
 	out.Transfers = r.transfers
 	out.Conns = len(r.conns)
